@@ -53,6 +53,7 @@ BASE_SECONDS = 8                # length of the base trajectory (8192 ticks)
 CLS = ('Position', 'NedVelocity', 'BodyVelocity')
 FB_TABLES = ('trajectory_sd', 'gyro', 'gyro_sd', 'accel', 'accel_sd')
 FF_TABLES = ('trajectory', 'trajectory_sd', 'gyro', 'gyro_sd', 'accel', 'accel_sd')
+WALL_SECONDS = 300              # backstop only (a run takes < 1 s); the back-edge budget is the watchdog
 
 # --------------------------------------------------------------------------------------
 # base data: one gentle trajectory on the tick grid, generated once
@@ -230,7 +231,7 @@ def run_impl(s):
     res = None
     try:
         if kind == 'fb':
-            with Watchdog(codes, budget, 60):
+            with Watchdog(codes, budget, WALL_SECONDS):
                 strapdown.Integrator.integrate = integrate
                 try:
                     res = filters.run_feedback_filter(inp['initial'], 10, 2, 1, 5, inp['increments'], **kw)
@@ -241,7 +242,7 @@ def run_impl(s):
             computed = strapdown.Integrator(inp['initial'], True).integrate(inp['increments'])
             if s.get('increments'):
                 kw['increments'] = inp['increments']
-            with Watchdog(codes, budget, 60):
+            with Watchdog(codes, budget, WALL_SECONDS):
                 res = filters.run_feedforward_filter(nominal, computed, 10, 2, 1, 5, **kw)
     except NonTermination as e:
         return dict(status='nonterminating', error=str(e))
@@ -764,7 +765,8 @@ def correspondence(r, kind, schedules, label, max_report=3):
         else:
             if nviol <= max_report:
                 r.broken('correspondence', f'{label}: implementation {obs["status"]}',
-                         dict(schedule=s, error=obs.get('error')))
+                         json.dumps(dict(schedule={k: v for k, v in s.items() if k != 'cats'},
+                                         error=obs.get('error'))))
     t = time.time()
     nbad = 0
     for lo in range(0, len(ok_pairs), 400):
@@ -777,9 +779,12 @@ def correspondence(r, kind, schedules, label, max_report=3):
             nbad += 1
             if nbad <= max_report:
                 s, obs = shard[i]
+                small = shrink(s, lambda c: bool(differs(c)), budget=30) if nbad == 1 else s
                 r.broken('correspondence', f"{label}: model and implementation differ in "
                          + ", ".join(DIFF_NAMES.get(c, str(c)) for c in codes),
-                         json.dumps(dict(schedule=s, observed=obs), default=str)[:1800])
+                         json.dumps(dict(schedule={k: v for k, v in small.items() if k != 'cats'},
+                                         differ=differs(small) if small is not s else
+                                         [DIFF_NAMES.get(c, str(c)) for c in codes])))
     r.log(f"{label}: {len(ok_pairs)} cases compared exactly in Coq in {time.time() - t:.1f}s, "
           f"{nbad} mismatch(es), {nviol} property failure(s)")
     r.coverage.setdefault('correspondence', {})[label] = dict(
@@ -816,7 +821,7 @@ def run_check(r, kind, props_file):
         r.hygiene()
     else:
         small = list(exhaustive_small(kind, r.seed))
-        sub = random.Random(r.seed + 77).sample(small, 120)
+        sub = random.Random(r.seed + 77).sample(small, 200)
         correspondence(r, kind, sub, 'small-sample')
     r.coverage['distribution'] = dict(sorted(r.coverage['distribution'].items()))
 
@@ -842,9 +847,19 @@ def run_falsify(r, kind):
     r.log(f"falsifier: {len(schedules)} schedules, {found} failing input(s) reported")
 
 
-def run_replay(obj):
-    rep = obj.get('replay', obj)
-    s = rep['schedule']
+def differs(s):
+    """Names of the observables on which the implementation and the Coq model differ on `s`
+    ([] = none; implementation failures count as a difference)."""
+    obs = run_impl(s)
+    if obs['status'] != 'ok':
+        return [f"implementation {obs['status']}"]
+    ok, res, out = coq_compare(s['filter'], [(s, obs)], 'one_' + s['filter'])
+    if not ok:
+        return ['coqc failed: ' + out[-300:]]
+    return [DIFF_NAMES.get(c, str(c)) for c in res.get(0, [])]
+
+
+def replay_one(s):
     warm_up(s['filter'])
     name = 'run_feedback_filter' if s['filter'] == 'fb' else 'run_feedforward_filter'
     print(f"schedule for pyins.filters.{name} (time unit = 1/{DEN} s):")
@@ -855,6 +870,16 @@ def run_replay(obj):
         print(f"    {k}: {v}")
     print("model (Coq, vm_compute) event trace:")
     print(model_trace(s))
+    rc = 0
+    if obs['status'] == 'ok':
+        ok, res, out = coq_compare(s['filter'], [(s, obs)], 'one_' + s['filter'])
+        if not ok:
+            print("coqc failed on the comparison:", out[-500:])
+        elif res.get(0):
+            print("MODEL AND IMPLEMENTATION DIFFER in:", ", ".join(DIFF_NAMES.get(c, str(c)) for c in res[0]))
+            rc = 1
+        else:
+            print("model and implementation agree on every compared observable")
     fails = property_failures(s, obs)
     if fails:
         print("PROPERTY FAILS:")
@@ -862,7 +887,26 @@ def run_replay(obj):
             print("   -", f)
         return 1
     print("property statements hold on this schedule")
-    return 0
+    return rc
+
+
+def run_replay(obj):
+    rep = obj.get('replay', obj)
+    if isinstance(rep, dict) and 'schedule' in rep:
+        return replay_one(rep['schedule'])
+    rc, n = 0, 0
+    for b in obj.get('broken', []) + obj.get('breaks', []):     # a `-broken.json` file: no failing input known
+        try:
+            s = json.loads(b['detail'])['schedule']
+        except Exception:
+            print(f"{b.get('kind')}: {b.get('name')}: {str(b.get('detail'))[:600]}")
+            continue
+        n += 1
+        print(f"--- {b.get('kind')}: {b.get('name')}")
+        rc |= replay_one(s)
+    if not n:
+        print("no schedule recorded; rerun:", obj.get('rerun'))
+    return rc
 
 
 def check(r):
